@@ -41,12 +41,16 @@ def plan(tier, seed):
             specs.append({"name": f"flips-{n}" + (f"-{part}" if parts > 1 else ""), "kind": "flips", "base": n, "stride": stride, "part": part, "parts": parts})
     for i in range(8):
         specs.append({"name": f"struct-{i}", "kind": "structural", "bases": names[i::8], "n": 150 if tier == "quick" else 6000})
+    # key agreement plays no role for these mutations: the quick tier uses the cheap (nonce / P-256) bases only
+    det = names if tier == "thorough" else [n for n in names if "-nonce-" in n or n in ("SHA1-ECDH_P256-envelope", "SHA512-ECDH_P256-trailing")]
+    for i in range(min(16, len(det))):
+        specs.append({"name": f"deterministic-{i}", "kind": "deterministic", "bases": det[i::16] if tier == "thorough" else det[i : i + 1]})
     return specs
 
 
 def finalize(agg, tier):
     r = []
-    for c in ("mutations_executed", "outcome_error", "outcome_same_plaintext"):
+    for c in ("mutations_executed", "outcome_error", "outcome_same_plaintext", "algorithm_substitutions", "deterministic_structure_mutations"):
         if agg.counter(c) == 0:
             r.append(f"monitor never reached / outcome class never seen: {c}")
     if len(agg.sets.get("error_sites", ())) < 4:
@@ -162,10 +166,32 @@ def run_structural(spec, rec: Recorder):
     rec.sample({"bases": spec["bases"], "structural_mutations_each": spec["n"], "special": [s[0] for s in special]})
 
 
+def run_deterministic(spec, rec: Recorder):
+    mon.KDFS.install()
+    rng = common.rng_for(ID, spec)
+    for base in mutate.base_blobs(spec["seed"], spec["bases"]):
+        cache = mutate.offline_cache(base)
+        n = 0
+        for label, m in mutate.deterministic_structure_mutations(base.blob):
+            execute(rec, base, cache, m, label, {})
+            n += 1
+        rec.count("deterministic_structure_mutations", n)
+        k = 0
+        for label, m in mutate.algorithm_substitutions(base, rng):
+            out = execute(rec, base, cache, m, label, {})
+            rec.seen("algorithm_substitution_outcomes", out)
+            k += 1
+        rec.count("algorithm_substitutions", k)
+        rec.count("mutations_executed", n + k)
+        rec.bulk(n + k, n + k)
+        rec.mark_exhaustive(f"per-TLV delete/empty/duplicate, all values of short primitives, algorithm substitution matrix for {base.name}")
+    rec.sample({"kind": "deterministic structure + algorithm substitutions", "bases": spec["bases"], "structure_mutations": n, "algorithm_substitutions": k})
+
+
 def run_shard(spec, rec: Recorder):
     if not common.calibrate(rec, "der", "gkdi", "cms", "crypto"):
         return
-    {"flips": run_flips, "structural": run_structural}[spec["kind"]](spec, rec)
+    {"flips": run_flips, "structural": run_structural, "deterministic": run_deterministic}[spec["kind"]](spec, rec)
 
 
 def replay(body, rec: Recorder):
